@@ -82,12 +82,16 @@ func verifH_C06_dispatch() {
 	verifReach("end")
 }
 
-//verif:harness id=C06 tier=quick,thorough witness=end bounds="request-side property rules: body (injected decoder) object with a readOnly and a writeOnly property, each required or not, each present or absent; option ExcludeReadOnlyValidations symbolic"
+//verif:harness id=C06 tier=quick,thorough witness=end bounds="request-side property rules: body (injected decoder) object with a readOnly and a writeOnly property, each required or not, each present or absent, the read-only one with or without a default; options ExcludeReadOnlyValidations and SkipSettingDefaults symbolic"
 func verifH_C06_readonly() {
 	num := func(ro, wo bool) *openapi3.SchemaRef {
 		return &openapi3.SchemaRef{Value: &openapi3.Schema{Type: &openapi3.Types{"number"}, ReadOnly: ro, WriteOnly: wo}}
 	}
 	obj := &openapi3.Schema{Type: &openapi3.Types{"object"}, Properties: openapi3.Schemas{"r": num(true, false), "w": num(false, true)}}
+	if verifChoose("defR", 2) == 1 {
+		// a default on the read-only property must not be filled into a request (it would then be "present")
+		obj.Properties["r"].Value.Default = 5.0
+	}
 	reqR, reqW := verifChoose("reqR", 2) == 1, verifChoose("reqW", 2) == 1
 	if reqR {
 		obj.Required = append(obj.Required, "r")
@@ -104,9 +108,11 @@ func verifH_C06_readonly() {
 		value["w"] = 2.0
 	}
 	RegisterBodyDecoder("application/x-verif", func(io.Reader, http.Header, *openapi3.SchemaRef, EncodingFn) (any, error) { return value, nil })
+	// when a default is filled in the body is re-encoded: the content type needs an encoder too
+	RegisterBodyEncoder("application/x-verif", func(any) ([]byte, error) { return []byte("x"), nil })
 	rb := &openapi3.RequestBody{Required: true, Content: openapi3.Content{"application/x-verif": &openapi3.MediaType{Schema: &openapi3.SchemaRef{Value: obj}}}}
 	op := &openapi3.Operation{RequestBody: &openapi3.RequestBodyRef{Value: rb}}
-	opts := &Options{ExcludeReadOnlyValidations: verifNondetBool("exclRO"), SkipSettingDefaults: true}
+	opts := &Options{ExcludeReadOnlyValidations: verifNondetBool("exclRO"), SkipSettingDefaults: verifNondetBool("skipDefaults")}
 	input := verifBodyInput(op, "application/x-verif", "x", true, opts)
 	err := ValidateRequestBody(context.Background(), input, rb)
 	ok := true
@@ -181,5 +187,37 @@ func verifH_C06_form() {
 			}
 		}
 	}
+	verifReach("end")
+}
+
+//verif:harness id=C06 tier=quick,thorough witness=end bounds="media type keys carrying parameters: declared content = subsets of {'text/plain; v=2', 'text/plain', 'text/*'} each with its own symbolic maxLength x Content-Type in {'text/plain; v=2' (exact key), 'text/plain', 'text/plain;v=2' (other spelling)} x body of 1-2 ASCII bytes through ValidateRequestBody: the entry is chosen by exact string, then bare type, then type/*"
+func verifH_C06_paramkey() {
+	keys := []string{"text/plain; v=2", "text/plain", "text/*"}
+	lens := []uint64{verifNondetUint64("lenExact"), verifNondetUint64("lenBare"), verifNondetUint64("lenWild")}
+	subset := 1 + verifChoose("declared", 7)
+	content := openapi3.Content{}
+	for i, k := range keys {
+		if subset&(1<<i) != 0 {
+			content[k] = &openapi3.MediaType{Schema: &openapi3.SchemaRef{Value: &openapi3.Schema{Type: &openapi3.Types{"string"}, MaxLength: &lens[i]}}}
+		}
+	}
+	rb := &openapi3.RequestBody{Required: true, Content: content}
+	op := &openapi3.Operation{RequestBody: &openapi3.RequestBodyRef{Value: rb}}
+	cti := verifChoose("ct", 3)
+	ct := []string{"text/plain; v=2", "text/plain", "text/plain;v=2"}[cti]
+	text := verifLeaf("b", 2, "")
+	input := verifBodyInput(op, ct, text, true, &Options{})
+	err := ValidateRequestBody(context.Background(), input, rb)
+	chosen := -1
+	switch {
+	case cti == 0 && subset&1 != 0:
+		chosen = 0
+	case subset&2 != 0:
+		chosen = 1
+	case subset&4 != 0:
+		chosen = 2
+	}
+	want := chosen >= 0 && uint64(len(text)) <= lens[chosen]
+	verifAssert((err == nil) == want, "C06 media type keys with parameters: the declared entry is chosen by exact string, then bare type, then type/*, and its schema decides")
 	verifReach("end")
 }
